@@ -43,7 +43,7 @@ def BOUNDS(tier):
 def REQUIRED_COVER(tier):
     return {'kind:int', 'kind:ext_in', 'kind:ext_out', 'init:none', 'init:all5', 'init:3refs', 'extra:2', 'body:inline', 'body:ref', 'init:inline', 'init:ref', 'placement:alt',
             'anycast', 'wrapper:StateInit', 'wrapper:CurrencyCollection', 'wrapper:WalletV3Data', 'wrapper:WalletV4Data', 'wrapper:NftItemData', 'wrapper:HashUpdate',
-            'wrapper:TickTock', 'wrapper:AccountStatus', 'tight:refs'}
+            'wrapper:TickTock', 'wrapper:AccountStatus', 'tight:refs', 'isolation'}
 
 
 # ------------------------------------------------------------------------------------------ family
@@ -505,6 +505,58 @@ def case_wrappers(rec):
     rec.sample({'wrapper': 'CurrencyCollection', 'grams': 256, 'extra': {5: 256}, 'reference_bits': RB.coins(256) + '1'})
 
 
+def case_isolation(rec):
+    """independently constructed values do not share mutable state: the caller edits the extra-currency dictionary of ONE
+    collection in place (every order of: create a, create b, edit a, create c); every other collection - and messages built
+    from them - still serialise as before"""
+    from pytoniq_core.tlb.block import CurrencyCollection, ExtraCurrencyCollection
+    from pytoniq_core.tlb.transaction import MessageAny, InternalMsgInfo
+    from pytoniq_core.boc import HashMap
+    seed = rec.seed
+    rec.covered('isolation')
+
+    def bits(cc):
+        c = cc.serialize()
+        return c.bits.to01(), len(c.refs)
+    for ctor_name, mk in (('CurrencyCollection(g)', lambda g: CurrencyCollection(g)), ('CurrencyCollection(g, None)', lambda g: CurrencyCollection(g, None)),
+                          ('CurrencyCollection(g, ExtraCurrencyCollection({}))', lambda g: CurrencyCollection(g, ExtraCurrencyCollection({})))):
+        for order in ('ab-edit-c', 'a-edit-bc', 'abc-edit'):
+            rec.case('isolation')
+            rec.state(('iso', ctor_name, order))
+            rec.nontriv(('iso', ctor_name, order))
+            rec.trans(6)
+            try:
+                a = mk(5)
+                b = mk(7) if order != 'a-edit-bc' else None
+                c = mk(9) if order == 'abc-edit' else None
+                a.other.dict[3] = 1000          # the caller's own collection
+                if b is None:
+                    b = mk(7)
+                if c is None:
+                    c = mk(9)
+                msg = MessageAny(InternalMsgInfo(True, False, False, lib_addr(A0, seed), lib_addr(A1, seed), mk(11), 0, 0, 0, 0), None, cell_to_lib(RC.RCell('1')))
+                got = (bits(b), bits(c), msg.serialize().begin_parse().remaining_refs)
+                want = ((RB.coins(7) + '0', 0), (RB.coins(9) + '0', 0), 0)
+                rec.trace()
+                if got != want:
+                    rec.violation('isolation:currency', f'{ctor_name}, order {order}: after editing the extra currencies of one collection, independently built collections / '
+                                  f'messages carry them too ({got} vs {want})', 'case_isolation', {})
+                if bits(a) != (RB.coins(5) + '1', 1):
+                    rec.violation('isolation:own-edit', f'{ctor_name}: the edited collection itself does not serialise its new entry', 'case_isolation', {})
+            except Exception as e:
+                rec.violation('isolation:raises', f'{ctor_name}, order {order}: {exc_name(e)}: {e}', 'case_isolation', {})
+    # dictionaries built independently
+    rec.case('isolation')
+    h1, h2 = HashMap(8).with_uint_values(8) if hasattr(HashMap(8), 'with_uint_values') else HashMap(8), HashMap(8)
+    try:
+        h1.set_int_key(1, 2)
+        if h2.map or HashMap(8).map:
+            rec.violation('isolation:hashmap', 'independently constructed HashMap objects share their map', 'case_isolation', {})
+    except Exception as e:
+        rec.violation('isolation:raises', f'HashMap: {exc_name(e)}: {e}', 'case_isolation', {})
+    rec.sample({'isolation': 'a = CurrencyCollection(5); b = CurrencyCollection(7); a.other.dict[3] = 1000; b.serialize() unchanged'})
+
+
 def selftest():
     S = schema()
     h = headers()[2]
@@ -518,7 +570,7 @@ def selftest():
 
 
 def shards(tier, seed):
-    out = [{'fn': 'case_wrappers', 'args': {}}]
+    out = [{'fn': 'case_wrappers', 'args': {}}, {'fn': 'case_isolation', 'args': {}}]
     for hi in range(len(headers())):
         for p in range(2):
             out.append({'fn': 'shard_messages', 'args': {'hi': hi, 'part': p, 'parts': 2}, 'prio': 2})
